@@ -22,6 +22,11 @@ fn mkbox(x) { var b = Box.new(); b.f = x; return b; }
 #[constructor(new)] class Inst { fn sum(self) { return (self.a, self.b); } }
 fn mkinst(u) { var i = Inst.new(); i.a = [u, "a" + "x"]; i.b = (u, "b"); return i; }
 fn mkclo(x) { return || { return x; }; }
+fn getiter(v) { return v.iter; }
+fn getpush(v) { return v.push; }
+fn getsum(u) { return mkinst(u).sum; }
+#[constructor(new)] class CallHolder { }
+fn mkholder(f) { var h = CallHolder.new(); h.f = f; return h; }
 fn mkctr(u) { var c = [u]; return || { c = [c[0] + 1]; return c; }; }
 fn mkfib(x) { var f = Fiber.new(|a| { var loc = a; Fiber.yield(1); return loc; }); f.call(x); return f; }
 fn mkfin(u) { var f = Fiber.new(|| { return [u]; }); f.call(); return f; }
@@ -219,6 +224,14 @@ OPS = [
     '("q" + "{u}").iter().collect()',
     "String.from([{u}, ({u}, 7)])",
     "[({u}, [8]), ({u}, [9])] == [({u}, [8]), ({u}, [9])]",
+    # calls through callables that only the call itself still holds: a bound built-in method / bound method returned by a
+    # function, and a callable stored in a field of a temporary instance
+    "getiter([[{u}], ({u}, 1)])().next()",
+    "getpush([[{u}]])(({u}, [2]))",
+    "getsum({u})()",
+    "mkholder([[{u}], [{u} + 1]].iter).f().next()",
+    "mkholder(mkinst({u}).sum).f()",
+    "mkholder(|x| {{ return [x, ({u}, x)]; }}).f([{u}])",
 ]
 # operations that fail: the error object is created while the operands are held only by the interpreter
 FAIL_OPS = [
@@ -236,6 +249,9 @@ FAIL_OPS = [
     "{{}}.insert([longstr({u})], 1)",
     "[1, 2][longstr({u})]",
     "longstr({u}).nothing",
+    "getsum({u})(1, 2)",
+    "getiter([[{u}]])(1)",
+    "mkholder(mkinst({u}).sum).f([{u}], 2)",
 ]
 
 
